@@ -137,10 +137,10 @@ type options struct {
 	validation bool
 	ts         TypeSettings
 
-	// callObject is the address of the object of the call if it is handed over as a pointer: the type settings of the
-	// call (WithTypeSettings) belong to that object, also where the settings of a struct field would not be used (a
-	// pointer to a byte array in the map form).
-	callObject uintptr
+	// atCallObject is set while the map form works on the object of the call itself (pointer levels of the argument
+	// are stripped, nothing has been entered yet): the type settings of the call (WithTypeSettings) belong to that
+	// object, also where the settings of a struct field would not be used (a pointer to a byte array).
+	atCallObject bool
 	// decodeDepth is the number of nested decode calls that are currently in progress (see maxDecodeDepth).
 	decodeDepth int
 
@@ -404,9 +404,7 @@ func (api *API) MapEncode(ctx context.Context, obj interface{}, opts ...Option) 
 	for _, o := range opts {
 		o(opt)
 	}
-	if value.Kind() == reflect.Ptr && !value.IsNil() {
-		opt.callObject = value.Pointer()
-	}
+	opt.atCallObject = true
 	m, err := api.mapEncode(ctx, value, opt.ts, opt)
 	if err != nil {
 		return nil, err
@@ -463,9 +461,7 @@ func (api *API) MapDecode(ctx context.Context, m map[string]any, obj interface{}
 		o(opt)
 	}
 
-	if value.Kind() == reflect.Ptr && !value.IsNil() {
-		opt.callObject = value.Pointer()
-	}
+	opt.atCallObject = true
 
 	return api.mapDecode(ctx, m, value, opt.ts, opt)
 }
